@@ -473,8 +473,39 @@ def reduce_kwargs(cls, kw):
     return out
 
 
+# documented ORDER of the leading constructor parameters: in about a third of the constructions the leading arguments are
+# passed positionally (a re-ordered signature is a change of the public interface)
+DOC_ORDER = {
+    "OrthogonalRegression": ["use_orthogonal_projector", "linear_estimator"],
+    "DirectionalConvexHull": ["low_dim_idx", "tolerance"],
+    "QuickShift": ["dist_cutoff_sq", "gabriel_shell", "scale"],
+    "StandardFlexibleScaler": ["with_mean", "with_std", "column_wise"],
+    "KernelNormalizer": ["with_center", "with_trace"],
+    "SparseKernelCenterer": ["with_center", "with_trace", "rcond"],
+    "PCovR": ["mixing", "n_components"],
+    "KernelPCovR": ["mixing", "n_components"],
+    "SparseKDE": ["descriptors", "weights"],
+    "FPS": ["initialize", "n_to_select"],
+    "CUR": ["recompute_every", "k", "tolerance", "n_to_select"],
+    "PCovFPS": ["mixing", "initialize", "n_to_select"],
+    "PCovCUR": ["mixing", "recompute_every", "k", "tolerance", "n_to_select"],
+    "Ridge2FoldCV": ["alphas", "alpha_type", "regularization_method"],
+}
+
+
 def mk(cls, **kw):
-    return cls(**reduce_kwargs(cls, kw))
+    import random
+    kw = reduce_kwargs(cls, kw)
+    order = DOC_ORDER.get(getattr(cls, "__name__", ""), [])
+    pos = []
+    r = random.Random("pos|%s|%r|%d" % (getattr(cls, "__name__", ""), sorted((k, repr(v)) for k, v in kw.items()), seed()))
+    if order and r.random() < 0.35:
+        for name in order:
+            if name in kw:
+                pos.append(kw.pop(name))
+            else:
+                break
+    return cls(*pos, **kw)
 
 def apalache_inductive(module, timeout=1500):
     """Optional extra (never decides a verdict): IndInit => IndInv at length 0 from Init and the inductive step at length 1."""
